@@ -508,10 +508,9 @@ impl Model {
                     _ => return Self::expect(t, op, Out::err("KeyNotFound"), out),
                 };
                 if cur.ts == u64::MAX {
-                    // the clock was still consulted
-                    if ts_used != 0 {
-                        self.max_seen = self.max_seen.max(ts_used.min(u64::MAX - 1));
-                    }
+                    // The clock is consulted (and advanced) before the overflow is
+                    // noticed; the hook does not report it. Upper bound of the clock:
+                    self.max_seen = self.now.max(self.max_seen.saturating_add(1));
                     return Self::expect(t, op, Out::err("OlderTimestamp"), out);
                 }
                 Self::expect(t, op, Out::Unit, out)?;
